@@ -241,7 +241,26 @@ def check_obs(case, obs):
     return res
 
 
+TRANSFER_NAMES = ['test_a (pkg.tests.T.test_a)', 't\u00ebst \u2713', 'multi\nline id', 'nel\x85ls vt\x0b',
+                  'ls\u2028ps\u2029 ff\x0c fs\x1c', 'sub (m.T.sub) [first\u2028second]']
+
+
+def gen_transfer():
+    """the child -> parent transfer of count and names (C12's third anchor), on the real child report code and the real
+    parent parser: names with every character str.splitlines() treats as a line boundary, in both lists"""
+    from native import c07
+    for procs in (1, 2):
+        yield c07.base('roundtrip', ran=7, fails=TRANSFER_NAMES, errs=[], processes=procs)
+        yield c07.base('roundtrip', ran=7, fails=TRANSFER_NAMES[:2], errs=TRANSFER_NAMES[2:], processes=procs)
+        for n in TRANSFER_NAMES[3:]:
+            yield c07.base('roundtrip', ran=3, fails=[n, 'after'], errs=['e1', n], processes=procs)
+
+
 def check(case):
+    if case.get('kind') == 'roundtrip':
+        from native import c07
+        v = c07.check_roundtrip(case)
+        return [('transfer:' + v[0], v[1])] if v else []
     spec = case['spec']
     obs = tw.execute(spec, file_based=(case.get('mode') == 'files'),
                      broken_module=bool(case.get('broken')))
@@ -338,6 +357,8 @@ def gen_random(seed, tier='quick'):
 
 
 def nontrivial(case):
+    if case.get('kind') == 'roundtrip':
+        return True
     return any(t['k'] != 'pass' for t in case['spec']['tests']) or any(
         ly.get('setUp') or ly.get('tearDown') for ly in case['spec'].get('layers', ()))
 
@@ -347,6 +368,8 @@ def run(budget_s, seed, tier):
         ('singles: every kind x -v0..3 x repeat{1,2}', True, gen_singles()),
         ('subprocess modes (-j2, resumed after NotImplementedError, import error), 9 worlds',
          False, gen_files()),
+        ('transfer of count and names from a child (real report writer, real parser), names with line-boundary characters',
+         True, gen_transfer()),
         ('pairs over the full alphabet', True, gen_pairs()),
         ('triples over reduced alphabet in two layers', True, gen_triples()),
         ('layer shapes x repeat{1,2}', True, gen_layer_shapes()),
